@@ -239,3 +239,19 @@ Theorem sais_too_long_proof opt t :
 Proof.
   intros H. unfold sais. cbn [sais_go]. destruct (N.ltb_spec MAX_TEXT_SIZE (N.of_nat (length t))); [reflexivity|lia].
 Qed.
+
+(* the builder with the SA-IS model plugged in for its `sais` parameter: every algorithm, every
+   configuration, every byte string up to the guard (same two hypotheses) *)
+Definition sais_fn (opt : bool) (t : list N) : list nat :=
+  match sais opt t with Some sa => sa | None => [] end.
+
+Theorem build_with_sais_model_is_sa_proof :
+  final_ok -> first_ok ->
+  forall opt (analyse : list N -> alg) c t,
+    (forall x, In x t -> (x < 256)%N) -> (N.of_nat (length t) <= MAX_TEXT_SIZE)%N ->
+    is_sa t (build (sais_fn opt) analyse c t).
+Proof.
+  intros Hf1 Hf2 opt analyse c t Hb Hs. apply build_is_sa_proof. intros _.
+  destruct (sais_is_sa_partial_proof Hf1 Hf2 opt t Hb Hs) as (sa & E & Hsa).
+  unfold sais_fn. rewrite E. exact Hsa.
+Qed.
